@@ -1,5 +1,5 @@
 # replay of a bounded stand-in violation (C04): re-run native/c04_reorder.py
 import sys
-print('gbs compile [mode 0 deleted, mode 1 measured]: merged MeasureFock acts on modes [2], the program measures modes [1]')
+print("list_to_DAG(['X0>1', 'R0']): no path from #0 X0>1 to #1 R0 although they share a mode / measured parameter")
 print('REPLAY-VIOLATION')
 sys.exit(1)
